@@ -25,7 +25,7 @@ E.FAMILIES["retry_fanout1"] = dict(profile="retry", over={"fail_levels": 1, "fan
                                                             "retry_in_retried_fanout": False,
                                                             "types": dict(Pass=2, Task=6, Choice=1, Wait=1, Succeed=1,
                                                                           Fail=1, Parallel=3, Map=3)})
-FAMILY_MIX = ["retry"] * 3 + ["retry_fanout1"] * 2 + ["sequential"]
+FAMILY_MIX = ["retry"] * 3 + ["retry_fanout1"] * 2 + ["sequential"] + ["retry_map_batches", "retry_fanout_siblings"]
 POLICIES = ["canonical", "canonical", "latency-small", "latency-heavy"]
 
 
@@ -74,10 +74,94 @@ class RetryCountMonitor(Monitor):
                     st.get("Name"), arn, st.get("RetryCount"), st.get("RetryTimeout")), witness=w)
 
 
+F = E.GM.FN_ARN
+
+
+def handlers(rng, errs, allow_all=True):
+    """Retry / Catch fields for a fan-out state: retriers and catchers over the error names that can occur."""
+    out = {}
+    if rng.random() < 0.8:
+        rs = []
+        for k in range(rng.randint(1, 2)):
+            eq = ["States.ALL"] if (allow_all and rng.random() < 0.4) else [rng.choice(errs + ["E.Never"])]
+            r = {"ErrorEquals": eq, "IntervalSeconds": rng.choice([1, 2, 3]), "MaxAttempts": rng.choice([0, 1, 2, 3]),
+                 "BackoffRate": rng.choice([1.0, 1.5, 2.0])}
+            rs.append(r)
+            if eq == ["States.ALL"]:
+                break
+        # one retrier at most may match what happens (the shared RetryCount is a recorded finding)
+        hit = [r for r in rs if r["ErrorEquals"] == ["States.ALL"] or r["ErrorEquals"][0] in errs]
+        if len(hit) > 1:
+            rs = [hit[0]]
+        out["Retry"] = rs
+    if rng.random() < 0.7:
+        out["Catch"] = [{"ErrorEquals": [rng.choice(["States.ALL", "States.ALL"] + errs)],
+                         "ResultPath": rng.choice(["$.caught", "$.err"]), "Next": "H"}]
+    return out
+
+
+def gen_batches(rng):
+    """Map with MaxConcurrency 1-2 over 2-4 items (several batches) whose failing item sits in any batch; Retry/Catch
+    on the Map state itself: the retry progress of the Map has to survive the re-entries for later batches."""
+    n = rng.randint(2, 4)
+    bad_at = rng.randrange(n)
+    mc = rng.choice([1, 1, 2]) if n > 2 else 1
+    err = rng.choice(["E.Alpha", "E.Beta"])
+    fails = rng.choice([1, 2, 3, 4, 99])
+    items = [{"i": k, "bad": k == bad_at} for k in range(n)]
+    it = {"StartAt": "C", "States": {
+        "C": {"Type": "Choice", "Choices": [{"Variable": "$.bad", "BooleanEquals": True, "Next": "B"}], "Default": "G"},
+        "G": {"Type": "Task", "Resource": F + "good", "End": True},
+        "B": {"Type": "Task", "Resource": F + "bad", "End": True}}}
+    m = {"Type": "Map", "ItemsPath": "$.items", "MaxConcurrency": mc, "ResultPath": "$.out", "Next": "Z",
+         rng.choice(["ItemProcessor", "Iterator"]): it}
+    m.update(handlers(rng, [err]))
+    d = {"StartAt": "M", "States": {"M": m, "Z": {"Type": "Pass", "End": True},
+                                    "H": {"Type": "Pass", "Result": "handled", "ResultPath": "$.h", "End": True}}}
+    # with MaxConcurrency 2 the failing item's batch sibling is a quick task that has finished before the failure
+    script = {"good": [{"ok": {"op": "tag"}, "delay": 0.0}],
+              "bad": [{"err": err, "msg": "no", "delay": 1.0}] * min(fails, 12) + ([{"ok": {"op": "tag"}, "delay": 1.0}] if fails < 99 else [])}
+    return {"definition": d, "input": {"items": items}, "script": script, "functions": ["bad", "good"]}
+
+
+def gen_siblings(rng):
+    """Parallel / Map whose failing branch has siblings still waiting (a Wait, a slow Task - none with a Retry of its
+    own); Retry/Catch on the fan-out state: the cancelled siblings' Task.Terminated must not be retried or caught."""
+    err = rng.choice(["E.Alpha", "E.Beta"])
+    fails = rng.choice([1, 2, 3, 99])
+    t_fail = rng.choice([0.0, 1.0, 2.0])
+    sib = []
+    for k in range(rng.randint(1, 2)):
+        if rng.random() < 0.5:
+            sib.append({"StartAt": "W%d" % k, "States": {"W%d" % k: {"Type": "Wait", "Seconds": rng.choice([3, 5, 8]), "End": True}}})
+        else:
+            sib.append({"StartAt": "S%d" % k, "States": {"S%d" % k: {"Type": "Task", "Resource": F + "slow%d" % k, "End": True}}})
+    branches = sib[:]
+    branches.insert(rng.randrange(len(sib) + 1), {"StartAt": "B", "States": {"B": {"Type": "Task", "Resource": F + "bad", "End": True}}})
+    p = {"Type": "Parallel", "Branches": branches, "ResultPath": "$.out", "Next": "Z"}
+    p.update(handlers(rng, [err]))
+    d = {"StartAt": "P", "States": {"P": p, "Z": {"Type": "Pass", "End": True},
+                                    "H": {"Type": "Pass", "Result": "handled", "ResultPath": "$.h", "End": True}}}
+    script = {"bad": [{"err": err, "msg": "no", "delay": t_fail}] * min(fails, 12) + ([{"ok": {"op": "tag"}, "delay": t_fail}] if fails < 99 else []),
+              "slow0": [{"ok": {"op": "tag"}, "delay": rng.choice([4.0, 6.0])}], "slow1": [{"ok": {"op": "wrap"}, "delay": rng.choice([3.5, 7.0])}]}
+    return {"definition": d, "input": {"k": 1}, "script": script, "functions": sorted(script)}
+
+
+HAND = {"retry_map_batches": gen_batches, "retry_fanout_siblings": gen_siblings}
+
+
 def gen(i, tier):
     seed = common.run_seed(i)
     rng = random.Random(seed)
     fam = rng.choice(FAMILY_MIX)
+    if fam in HAND:
+        prog = HAND[fam](rng)
+        cfg = E.swarm_config(rng, ["canonical"], ttls=(600, 3600))
+        scn = E.scenario_of(prog, cfg, 1, rng.choice(["STANDARD", "STANDARD", "EXPRESS"]))
+        scn["machines"]["m"]["family"] = fam
+        mo = E.model_for(scn)
+        why = E.flags_block(mo) or mo.unsupported
+        return (seed, scn, mo, fam) if not why else (seed, None, None, fam)
     sizes = dict(E.GM.SIZES[tier])
     prof = dict(E.GM.PROFILES[E.FAMILIES[fam]["profile"]])
     prof.update(E.FAMILIES[fam]["over"])
@@ -119,6 +203,9 @@ def run_one(item, extra):
 def check(scn, seed, mo=None, fam="replay"):
     if mo is None:
         mo = E.model_for(scn)
+    if mo.unsupported or mo.status is None or (fam != "probe" and E.flags_block(mo)):
+        # (a shrunk scenario may leave what the reference model supports: nothing can be judged then)
+        return {"evaluations": 1, "probes": {"skipped:unsupported": 1}, "findings": [], "distinct": []}
     mon = RetryCountMonitor()
     res = run_scenario(scn, seed, monitors=[mon], horizon=scn["config"].get("execution_ttl", 600) + 800)
     arn = res.exec_arns.get("e1")
@@ -223,7 +310,9 @@ def main(argv):
         rule="generated retrier/catcher lists (0-3 each; ErrorEquals over custom names, States.Timeout, States.ALL; "
              "IntervalSeconds 1-3, MaxAttempts 0-4, BackoffRate 1.0-3.0; catcher ResultPath) x scripted error sequences "
              "(1-4 errors then success or not, time-outs) on Task states and on single-branch/single-item Parallel/Map "
-             "states, run on the virtual clock; zero-latency runs: every task request instant and the terminal instant "
+             "states, plus two hand-shaped families: a Map with MaxConcurrency batches whose failing item sits in any "
+             "batch (the Map's retry progress has to survive the re-entries), and a Parallel whose failing branch has "
+             "siblings still waiting (their Task.Terminated must not be retried or caught), run on the virtual clock; zero-latency runs: every task request instant and the terminal instant "
              "equal the reference model's within 2 ms; latency runs: never earlier; final status/output/error equal "
              "the model's; RetryCount never published in the event of a state without Retry; non-trivial = the model "
              "performs at least one retry or catch; distinct = distinct (program, script) hashes",
